@@ -90,6 +90,7 @@ harnesses! {
         (h_misc::c15_key_diff_addr, 7),
         (h_misc::c15_key_returning, 7),
         (h_misc::c16_broadcast_drain, 7),
+        (h_misc::c15_gossip_real, 7),
     ],
     stubbed: [
         (h_c11::c11_timeout_iff, 7),
